@@ -36,7 +36,7 @@ pub fn enter() -> io::Result<()> {
     }
     mount("", "/", "", libc::MS_REC | libc::MS_PRIVATE, "")?;
     mount("tmpfs", NSROOT, "tmpfs", 0, "size=2g,mode=0755")?;
-    for (name, lower) in [("etc", "/etc"), ("varlog", "/var/log"), ("varlib", "/var/lib")] {
+    for (name, lower) in [("etc", "/etc"), ("varlog", "/var/log"), ("varlib", "/var/lib"), ("usrsbin", "/usr/sbin"), ("usrlib", "/usr/lib")] {
         let up = format!("{}/{}.up", NSROOT, name);
         let wk = format!("{}/{}.wk", NSROOT, name);
         std::fs::create_dir_all(&up)?;
@@ -66,6 +66,9 @@ fn rm_contents(dir: &str) {
 /// wipe everything a run may have left behind
 pub fn wipe() {
     let _ = std::fs::remove_dir_all("/var/lib/azure-proxy-agent");
+    let _ = std::fs::remove_dir_all("/usr/lib/azure-proxy-agent");
+    let _ = std::fs::remove_file("/usr/sbin/azure-proxy-agent");
+    let _ = std::fs::remove_file("/usr/lib/systemd/system/azure-proxy-agent.service");
     let _ = std::fs::remove_dir_all("/var/log/azure-proxy-agent");
     rm_contents("/etc/azure");
     let _ = std::fs::OpenOptions::new().write(true).truncate(true).open("/dev/console");
